@@ -256,11 +256,47 @@ func (l *wsLog) snapshot() ([]protocol.Envelope, bool) {
 	return append([]protocol.Envelope(nil), l.envs...), l.closed
 }
 
+// termCapture: what the simulated applications print to their terminals (all nodes of
+// all runs of this worker, in order); whole-application harnesses read the part their run
+// appended - the host's "peer=... status=..." lines are its report about a receiver.
+var termCapture *os.File
+
 func initWorldOnce() {
+	if f, err := os.CreateTemp(os.Getenv("VERIF_SCRATCH"), "verif-term-*.log"); err == nil {
+		so, se := os.Stdout, os.Stderr
+		os.Stdout, os.Stderr = f, f
+		termio.Init()
+		os.Stdout, os.Stderr = so, se
+		termCapture = f
+	}
 	termio.Init()
 	// the runtime's signal goroutine and its channels must come into being outside any
 	// bubble (the application calls signal.Notify)
 	c := make(chan os.Signal, 1)
 	signal.Notify(c, syscall.SIGUSR2)
 	signal.Stop(c)
+}
+
+// termOffset / termSince: position in the capture, and the lines printed since then.
+func termOffset() int64 {
+	if termCapture == nil {
+		return 0
+	}
+	st, err := termCapture.Stat()
+	if err != nil {
+		return 0
+	}
+	return st.Size()
+}
+
+func termSince(off int64) []string {
+	if termCapture == nil {
+		return nil
+	}
+	time.Sleep(40 * time.Millisecond) // the terminal writer is a goroutine of its own, outside the bubble
+	b, err := os.ReadFile(termCapture.Name())
+	if err != nil || int64(len(b)) < off {
+		return nil
+	}
+	return strings.Split(string(b[off:]), "\n")
 }
